@@ -441,6 +441,8 @@ fn gen(tier: &str, seed: u64, out: &mut dyn FnMut(String)) {
                 let mut s: Vec<usize> = (0..r).map(|_| 1 + rng.below(3)).collect();
                 s[r - 1] = rng.below(12); s[r - 2] = rng.below(12);
                 if s.iter().product::<usize>() > 250 { s[r - 1] = 3; s[r - 2] = 4; }
+                // tags must stay below 256 for u8
+                let mut lead = 0; while s.iter().product::<usize>() > 250 { s[lead] = 1; lead += 1; }
                 let op = *rng.pick(&["tril", "triu", "tril_plus_triu"]);
                 out(format!("{op} {ty} {} {}", tag_off(&s, 1), rng.range(-15, 15)));
             }
